@@ -4,9 +4,9 @@ takes most of a minute and is re-checked only when `Generated/Schema.lean` or th
 namespace StoreSql
 open Store
 
-/-- no discrepancy of a history is left unexplained by one of the known shapes, and no frame break -/
+/-- the tables say what the replay says on every clause (i)–(iv), and no row of another ledger was touched (v) -/
 def smallScopeOk (logs : List CLog) : Bool :=
-  (discrepancies logs).all (fun d => explanation (logs.map (fun l => (l, 0))) d != "unexplained") && (frameBad logs).isEmpty
+  (discrepancies logs).isEmpty && (frameBad logs).isEmpty
 
 set_option maxRecDepth 1000000 in
 theorem smallScope_depth2 : (Search.histories 2).all smallScopeOk = true := by
